@@ -459,6 +459,9 @@ type Outcome struct {
 	// a write committed while a Delete had committed but not yet handed its REMOVE to every listener: Delete
 	// publishes while holding the write lock, so this must be impossible (the lock probe must report "blocked")
 	InDeleteWindow bool
+	// Copies: per publication (in the order their Bus.Send took its listener copy) the subscribers registered at that
+	// moment, from the harness's own mirror of the schedule: each of them that stays alive is owed this event
+	Copies [][]int
 }
 
 func (o *Outcome) finish(w *world, sc Scenario, cancel context.CancelFunc) {
@@ -516,7 +519,7 @@ func (o *Outcome) finish(w *world, sc Scenario, cancel context.CancelFunc) {
 	}
 }
 
-var sentinelFailures atomic.Int64
+var sentinelFailures, takenFailures atomic.Int64
 
 type chooser func(enabled []string, sofar []string) string
 
@@ -575,7 +578,11 @@ func runHooked(ctl *k4.Controller, sc Scenario, prefix []string, choose chooser)
 		if c.spec.BP {
 			return
 		}
-		deadline := time.Now().Add(5 * time.Second)
+		limit := 5 * time.Second
+		if takenFailures.Load() >= 3 { // the mirror is off (a broken tree): do not spend the budget waiting again
+			limit = 20 * time.Millisecond
+		}
+		deadline := time.Now().Add(limit)
 		for time.Now().Before(deadline) {
 			c.mu.Lock()
 			n := 0
@@ -591,6 +598,7 @@ func runHooked(ctl *k4.Controller, sc Scenario, prefix []string, choose chooser)
 			}
 			time.Sleep(50 * time.Microsecond)
 		}
+		takenFailures.Add(1)
 	}
 	var flight []int // writers with a publication in flight, commit order
 	lockHeld := -1   // writer whose Delete publishes under the lock
@@ -618,6 +626,7 @@ func runHooked(ctl *k4.Controller, sc Scenario, prefix []string, choose chooser)
 			}
 			if inFlight && th.Point == ptListener {
 				snapshot[t] = append([]int{}, regOrder...) // Delete: the listener copy is taken in the commit step
+				out.Copies = append(out.Copies, append([]int{}, regOrder...))
 			}
 			if inFlight {
 				flight = append(flight, t)
@@ -749,6 +758,7 @@ func runHooked(ctl *k4.Controller, sc Scenario, prefix []string, choose chooser)
 			t := flight[n]
 			if pick[0] == 'n' {
 				snapshot[t] = append([]int{}, regOrder...)
+				out.Copies = append(out.Copies, append([]int{}, regOrder...))
 			}
 			ctl.StepWait(wth[t])
 			if pick[0] == 'd' {
@@ -841,6 +851,41 @@ func judge(sc Scenario, o *Outcome, mode string) *verdict {
 	for _, i := range o.NoSentinel {
 		return &verdict{fmt.Sprintf("C03/%s/%s/sentinel-not-delivered", sc.Res, mode), fmt.Sprintf("subscriber %d never received the sentinel written after all writers returned", i), "sentinel event", "none within 5s"}
 	}
+	// no miss (holds on EVERY schedule, also with overlapping writers): a backpressured subscriber that stays alive
+	// receives one event per publication whose Bus.Send took its listener copy while it was registered
+	if sc.Eq == "" && mode != "stress" {
+		for i, c := range o.Subs {
+			if c == nil || c.gone || !c.spec.BP || c.spec.OID != nil {
+				continue
+			}
+			owed := 0
+			for _, cp := range o.Copies {
+				for _, x := range cp {
+					if x == i {
+						owed++
+					}
+				}
+			}
+			_, _, hist := c.fold()
+			got := 0
+			var hs []string
+			for _, e := range hist {
+				if !e.seed {
+					got++
+				}
+				hs = append(hs, e.String())
+			}
+			if got != owed {
+				class := "missed-publication"
+				if got > owed {
+					class = "unowed-publication"
+				}
+				return &verdict{fmt.Sprintf("C03/%s/%s/%s", sc.Res, mode, class),
+					fmt.Sprintf("subscriber %d (%+v, alive throughout) was registered when %d publications took their listener copy but received %d events after its seed", i, c.spec, owed, got),
+					fmt.Sprintf("%d events", owed), fmt.Sprintf("%d events: %s", got, strings.Join(hs, ";"))}
+			}
+		}
+	}
 	for i, c := range o.Subs {
 		if c == nil || c.gone {
 			continue
@@ -879,6 +924,9 @@ func judge(sc Scenario, o *Outcome, mode string) *verdict {
 			sig := fmt.Sprintf("C03/%s/%s/stale-view/%s", sc.Res, mode, class)
 			if mode != "k4" {
 				sig = fmt.Sprintf("C03/%s/%s/stale-view", sc.Res, mode)
+				if mode == "churn-disjoint-writers" && class == "lossy-seed-dup-cancelled" { // the recorded single-writer finding
+					sig = fmt.Sprintf("C03/%s/k4/stale-view/%s", sc.Res, class)
+				}
 			}
 			return &verdict{sig,
 				fmt.Sprintf("subscriber %d (%+v) ends with id %s = %v(present %v) but the store holds %v(present %v)", i, c.spec, k, got, gok, want, wok),
@@ -1250,73 +1298,21 @@ func main() {
 
 	res.Extra["wall_k4"] = time.Since(tStart).Seconds()
 	// subscriber churn (the model follows cancel / dead listener / collect)
-	{
-		ctl := k4.New(ptUpdSend, ptValSend, ptListener, ptCollLis, ptValLis)
-		cm := res.Monitor("converges-churn-hooked",
-			"single writer, three subscribers of which any may be cancelled at any step (its stream is awaited closed), hooked at the same yield points: scripted witnesses (subscriber registers after the listener copy of a Send that then finds a dead listener and garbage-collects, before / between deliveries) + random schedules; every subscriber still alive must converge at sentinel quiescence; deterministic, so any stale view is a violation")
-		var runs []pending
-		for _, sc := range churnWitnesses() {
-			runs = append(runs, pending{sc, runHooked(ctl, sc, sc.Sched, nil)})
-		}
-		for i := 0; i < f.N(250, 4000); i++ {
-			sc := genChurn(rng)
-			runs = append(runs, pending{sc, runHooked(ctl, sc, nil, func(en []string, _ []string) string { return en[rng.Intn(len(en))] })})
-		}
-		ctl.Close()
-		ctie := res.Tie("k4-churn-schedules", "K4",
-			"single writer, three subscribers, any of which may be cancelled at any step (step x<i>: context cancelled and stream awaited closed, so the next Send meets a dead listener and runs Bus.collect), scripted witnesses + random schedules through the same yield points; store, surviving subscribers' views and backpressured event sequences compared with run(model) incl. the model's cancel / dead-listener / collect steps; non-trivial = a subscriber registered after a cancellation")
-		if drv, err := lib.StartDriver(f.Driver); err != nil {
-			ctie.Fail(err)
-		} else {
-			lines := make([]string, len(runs))
-			for i, c := range runs {
-				lines[i] = c.sc.driverLine(c.o.Sched)
+	churnFamily(f, res, rng, "converges-churn-hooked", "k4-churn-schedules",
+		"single writer, three subscribers of which any may be cancelled at any step (its stream is awaited closed), hooked at the same yield points: scripted witnesses (subscriber registers after the listener copy of a Send that then finds a dead listener and garbage-collects, before / between deliveries) + random schedules; every subscriber still alive must converge at sentinel quiescence and every backpressured one must have received exactly one event per publication that took its listener copy while it was registered; deterministic, so any stale view is a violation",
+		"single writer, three subscribers, any of which may be cancelled at any step (step x<i>: context cancelled and stream awaited closed, so the next Send meets a dead listener and runs Bus.collect), scripted witnesses + random schedules through the same yield points; store, surviving subscribers' views and backpressured event sequences compared with run(model) incl. the model's cancel / dead-listener / collect steps; non-trivial = a subscriber registered after a cancellation",
+		churnWitnesses(), genChurn, f.N(250, 4000), func(Scenario) string { return "churn-single-writer" })
+	// churn under CONCURRENT publications: a Send parked at a listener while another Send meets a dead listener and
+	// runs Bus.collect (the parked Send must go on with the listeners it copied, whatever happens to Bus.listeners)
+	churnFamily(f, res, rng, "converges-churn-concurrent-hooked", "k4-churn-concurrent-schedules",
+		"two writers (Collection: of DISJOINT ids, so that every schedule is ordered and any stale view is a violation; Value: of the one value, where a stale view under overlapping publications is the recorded finding but a MISSED publication is not), three or four subscribers of which up to two are cancelled at any step, hooked at the same yield points: scripted witnesses (a cancelled, not yet collected listener ahead of the listener at which one publication is parked while the other publication finishes, finds the dead listener and runs Bus.collect; dead listener first / in the middle; parked subscriber backpressured or lossy) + random schedules; every subscriber still alive converges at sentinel quiescence and every backpressured one has received exactly one event per publication that took its listener copy while it was registered",
+		"the same scenarios: store, surviving subscribers' views and backpressured event sequences compared with run(model) (each publication of the model owns its listener copy; collect replaces Bus.listeners only); non-trivial = a publication was delivered after another publication's collect",
+		churn2Witnesses(), genChurn2, f.N(250, 3000), func(sc Scenario) string {
+			if sc.Res == "coll" {
+				return "churn-disjoint-writers"
 			}
-			answers, err := drv.Batch(lines)
-			drv.Close()
-			if err != nil {
-				ctie.Fail(err)
-			} else {
-				for i, c := range runs {
-					in := map[string]any{"churn": true, "max_gone": c.sc.MaxGone, "res": c.sc.Res, "init": c.sc.Init, "writers": c.sc.Writers, "subs": c.sc.Subs, "sched": c.o.Sched, "clock": c.sc.Clock, "eq": c.sc.Eq}
-					seenX, late := false, false
-					for _, a := range c.o.Sched {
-						if a[0] == 'x' {
-							seenX = true
-						}
-						if a[0] == 's' && seenX {
-							late = true
-						}
-					}
-					ctie.Record(lines[i], late, in, maskModel(answers[i], c.sc), codeCanon(c.sc, c.o))
-					if strings.HasSuffix(answers[i], "ord=1") {
-						ctie.Count("ordered-schedule")
-					} else {
-						ctie.Count("unordered-schedule")
-					}
-				}
-			}
-		}
-		for _, c := range runs {
-			cancelled, lateSub := 0, false
-			seenX := false
-			for _, a := range c.o.Sched {
-				if a[0] == 'x' {
-					cancelled++
-					seenX = true
-				}
-				if a[0] == 's' && seenX {
-					lateSub = true
-				}
-			}
-			cm.Eval(c.sc.driverLine(nil)+strings.Join(c.o.Sched, ","), cancelled > 0 && lateSub, nil)
-			cm.Count(fmt.Sprintf("cancelled=%d", cancelled))
-			if v := judge(c.sc, c.o, "churn-single-writer"); v != nil {
-				in := map[string]any{"mode": "k4", "churn": true, "max_gone": c.sc.MaxGone, "res": c.sc.Res, "init": c.sc.Init, "writers": c.sc.Writers, "subs": c.sc.Subs, "sched": c.o.Sched, "clock": c.sc.Clock, "eq": c.sc.Eq}
-				cm.Violate(v.sig, v.what, in, v.expected, v.observed)
-			}
-		}
-	}
+			return "k4"
+		})
 	tm := func(name string, t0 time.Time) { res.Extra["wall_"+name] = time.Since(t0).Seconds() }
 	t0 := time.Now()
 	slowMonitor(f, res, rng)
@@ -1324,6 +1320,9 @@ func main() {
 	t0 = time.Now()
 	masksMonitor(f, res, rng)
 	tm("masks", t0)
+	t0 = time.Now()
+	adaptersMonitor(f, res, rng)
+	tm("adapters", t0)
 	t0 = time.Now()
 	dupMonitor(f, res)
 	tm("dup", t0)
@@ -1333,6 +1332,77 @@ func main() {
 	tm("stress", t0)
 	if err := res.Write(f.Out); err != nil {
 		lib.Fatal(err)
+	}
+}
+
+// churnFamily: hooked runs with subscriber cancellations: a tie with the model and the property itself
+func churnFamily(f lib.Flags, res *lib.Result, rng *rand.Rand, monName, tieName, monRule, tieRule string, witnesses []Scenario, gen func(*rand.Rand) Scenario, n int, modeOf func(Scenario) string) {
+	ctl := k4.New(ptUpdSend, ptValSend, ptListener, ptCollLis, ptValLis)
+	cm := res.Monitor(monName, monRule)
+	var runs []pending
+	for _, sc := range witnesses {
+		runs = append(runs, pending{sc, runHooked(ctl, sc, sc.Sched, nil)})
+	}
+	for i := 0; i < n; i++ {
+		sc := gen(rng)
+		runs = append(runs, pending{sc, runHooked(ctl, sc, nil, func(en []string, _ []string) string { return en[rng.Intn(len(en))] })})
+	}
+	ctl.Close()
+	ctie := res.Tie(tieName, "K4", tieRule)
+	input := func(c pending) map[string]any {
+		return map[string]any{"mode": "k4", "churn": true, "max_gone": c.sc.MaxGone, "res": c.sc.Res, "init": c.sc.Init, "writers": c.sc.Writers, "subs": c.sc.Subs, "sched": c.o.Sched, "clock": c.sc.Clock, "eq": c.sc.Eq}
+	}
+	// non-trivial: a subscriber registered after a cancellation, or (several writers) a delivery after a collect
+	// that happened while another publication was in flight
+	interesting := func(c pending) bool {
+		seenX := false
+		for _, a := range c.o.Sched {
+			if a[0] == 'x' {
+				seenX = true
+			}
+			if (a[0] == 's' || (len(c.sc.Writers) > 1 && a[0] == 'd')) && seenX {
+				return true
+			}
+		}
+		return false
+	}
+	if drv, err := lib.StartDriver(f.Driver); err != nil {
+		ctie.Fail(err)
+	} else {
+		lines := make([]string, len(runs))
+		for i, c := range runs {
+			lines[i] = c.sc.driverLine(c.o.Sched)
+		}
+		answers, err := drv.Batch(lines)
+		drv.Close()
+		if err != nil {
+			ctie.Fail(err)
+		} else {
+			for i, c := range runs {
+				ctie.Record(lines[i], interesting(c), input(c), maskModel(answers[i], c.sc), codeCanon(c.sc, c.o))
+				if strings.HasSuffix(answers[i], "ord=1") {
+					ctie.Count("ordered-schedule")
+				} else {
+					ctie.Count("unordered-schedule")
+				}
+			}
+		}
+	}
+	for _, c := range runs {
+		cancelled := 0
+		for _, a := range c.o.Sched {
+			if a[0] == 'x' {
+				cancelled++
+			}
+		}
+		cm.Eval(c.sc.driverLine(nil)+strings.Join(c.o.Sched, ","), cancelled > 0 && interesting(c), nil)
+		cm.Count(fmt.Sprintf("cancelled=%d", cancelled))
+		if c.o.Concurrent {
+			cm.Count("two-publications-in-flight")
+		}
+		if v := judge(c.sc, c.o, modeOf(c.sc)); v != nil {
+			cm.Violate(v.sig, v.what, input(c), v.expected, v.observed)
+		}
 	}
 }
 
@@ -1431,7 +1501,7 @@ func replay(f lib.Flags) int {
 		Mode string `json:"mode"`
 		Scenario
 	}
-	if err := json.Unmarshal(raw, &in); err != nil || (len(in.Writers) == 0 && in.Mode != "lossy-slow" && in.Mode != "masks" && in.Mode != "lossy-seed-dup" && in.Mode != "include-table" && in.Mode != "merge-table") {
+	if err := json.Unmarshal(raw, &in); err != nil || (len(in.Writers) == 0 && in.Mode != "lossy-slow" && in.Mode != "masks" && in.Mode != "lossy-seed-dup" && in.Mode != "include-table" && in.Mode != "merge-table" && in.Mode != "adapter-openclose") {
 		fmt.Println("replay: no concrete input in file (", rp.Kind, ")")
 		return 2
 	}
@@ -1446,6 +1516,24 @@ func replay(f lib.Flags) int {
 			}
 		}
 		fmt.Println("replay: the include / merge tables satisfy their view specifications now")
+		return 0
+	}
+	if in.Mode == "adapter-openclose" {
+		var as AdScenario
+		if err := json.Unmarshal(raw, &as); err != nil {
+			lib.Fatal(err)
+		}
+		for i := 0; i < 20; i++ {
+			v, r := runAdapter(as)
+			if v != nil {
+				fmt.Printf("STILL FAILS %s: %s (expected %s, observed %s)\n", v.sig, v.what, v.expected, v.observed)
+				return 1
+			}
+			if i == 0 && r != nil {
+				fmt.Printf("replay composed stream %s -> messages %s, GetPositions %s\n", as.key(), strings.Join(r.msgs, ";"), r.get)
+			}
+		}
+		fmt.Println("replay: property holds on this input now (20 repetitions)")
 		return 0
 	}
 	if in.Mode == "lossy-slow" {
@@ -1521,6 +1609,12 @@ func replay(f lib.Flags) int {
 	jm := "k4"
 	if sc.Churn {
 		jm = "churn-single-writer"
+		if len(sc.Writers) > 1 {
+			jm = "k4"
+			if sc.Res == "coll" {
+				jm = "churn-disjoint-writers"
+			}
+		}
 	}
 	if v := judge(sc, o, jm); v != nil {
 		fmt.Printf("STILL FAILS %s: %s (expected %s, observed %s)\n", v.sig, v.what, v.expected, v.observed)
